@@ -250,8 +250,10 @@ def run(C, R):
             for path in paths:
                 if path.exit != 'return':
                     continue
+                own_frame = path.events[0]['frame'] if path.events else None
+                # a close called by the destructor itself: the public wrapper or, under its own lock, the state's
                 closes = [e for e in path.events if e['k'] == 'call' and e['name'] == 'close' and e['mode'] == 'inline'
-                          and 'ChannelState' not in e['callee']]
+                          and e['frame'] == own_frame]
                 subs = [e for e in path.events if e['k'] == 'call' and e['name'] == 'fetch_sub']
                 for e in subs:
                     counter_users.add(dropfn['path'])
